@@ -26,18 +26,18 @@ Definition get_items_to_delete (now : Z) (items : list item) (bytes_limit : opti
   | None => (let deadline := None in
   Ok (None, deadline))
   end) (fun '(older_item, deadline) =>
-  bind ((if (to_delete_size <=? (0)) then (if (to_delete_items <=? (0)) then (match deadline with None => Ok true | Some deadline => bind (getvar older_item) (fun v_1 => Ok ((v_1 >? deadline))) end) else Ok false) else Ok false)) (fun c_2 => if c_2 then (Ok ([])) else (let items := sort_by iatime items in
-  let items_to_delete := [] in
+  bind ((if (to_delete_size <=? (0)) then (if (to_delete_items <=? (0)) then (match deadline with None => Ok true | Some deadline => bind (getvar older_item) (fun v_1 => Ok ((v_1 >? deadline))) end) else Ok false) else Ok false)) (fun c_2 => if c_2 then (Ok ([])) else (let items_to_delete := [] in
   let size_so_far := (0) in
   let items_so_far := (0) in
   bind ((fix loop (l__ : list item) (st__ : _) {struct l__} : result _ :=
-    let '(size_so_far, items_so_far) := st__ in
+    let '(items_to_delete, size_so_far, items_so_far) := st__ in
     match l__ with
-    | [] => Ok (size_so_far, items_so_far)
+    | [] => Ok (items_to_delete, size_so_far, items_so_far)
     | item :: rest__ =>
-      if ((size_so_far >=? to_delete_size) && ((items_so_far >=? to_delete_items) && (match deadline with None => true | Some deadline => (deadline <? iatime item) end))) then Ok (size_so_far, items_so_far) else
+      if ((size_so_far >=? to_delete_size) && ((items_so_far >=? to_delete_items) && (match deadline with None => true | Some deadline => (deadline <? iatime item) end))) then Ok (items_to_delete, size_so_far, items_so_far) else
+      let items_to_delete := items_to_delete ++ [item] in
       let size_so_far := (size_so_far + isize item) in
       let items_so_far := (items_so_far + (1)) in
-      loop rest__ (size_so_far, items_so_far)
-    end) items (size_so_far, items_so_far)) (fun '(size_so_far, items_so_far) =>
+      loop rest__ (items_to_delete, size_so_far, items_so_far)
+    end) items (items_to_delete, size_so_far, items_so_far)) (fun '(items_to_delete, size_so_far, items_so_far) =>
   Ok (items_to_delete)))))))).
